@@ -21,8 +21,8 @@ from ..refs import c12_ref as R
 PROPERTY = 'C12'
 RULE = ('one case = one sampler configuration from the option grids of the families below (cartesian products, '
         'fixed order); inside a case the RNG is an enumerated environment: integers / discrete members are '
-        'enumerated completely, scalar uniforms come from an 8-value menu {golden-ratio value, 0, 1-2^-53, 1/4, '
-        '3/4, 1/2, 2^-53, 1/3}, array draws from 4 generic fills (two counter-based streams, "extremes", '
+        'enumerated completely, scalar uniforms come from the menu {golden-ratio value, 0, 1-2^-53, 1/4, 3/4} '
+        '(scalar samplers, vectors, identity multiples additionally 1/2, 2^-53, 1/3), array draws from 4 generic fills (two counter-based streams, "extremes", '
         '"small") and, for RandomFunction only, 5 constant fills that put all sinusoids at their maximum '
         'simultaneously.  A case is non-trivial when the explored answers exercise a boundary of the declared '
         'set (interval ends reached, supremum schedule executed, a symmetry/trace/determinant/triangular/'
@@ -36,7 +36,9 @@ ASSUMPTIONS = [
     'guard bands: 1e-9 relative on interval/norm/modulus bounds, 1e-9*max(1,(|M|_F/sqrt n)^n) on determinants, '
     '1e-9*max(1,|M|_F) on traces, 1e-12*max|M| on symmetry, 1e-9 relative on the random-function bound',
     'almost-sure contracts (norm, determinant) are explored with generic array fills only; measure-zero '
-    'degenerate fills (all entries equal) are not legal environment answers for them',
+    'degenerate fills (all entries equal) are not legal environment answers for them.  The generic "small" fill '
+    '(all uniforms within 1e-3 of 1/2) is a legal, if improbable, answer; failures that need it carry their own '
+    'signature (square:det0:tiny-raw-matrix)',
     'OrthogonalMatrices / UnitaryMatrices need scipy, which is absent: not sampled',
     'array fills are PRNG-derived but deterministic menu items keyed by VERIF_SEED, the round number and the '
     'choice index; the set of cases does not depend on VERIF_SEED',
@@ -60,7 +62,7 @@ class SeededFamily(Family):
     """remembers VERIF_SEED (it only selects the default RNG answers, never the set of cases)"""
     kind = 'CHOICE'
     timeout = 300.0
-    timeout_sig = 'gen_sample-does-not-terminate'
+    timeout_sig = 'exploration-of-one-configuration-timed-out'   # all schedules of one case share the watchdog
 
     def run_slice(self, tier, seed, w, W):
         self.seed = seed
@@ -108,19 +110,13 @@ def explore_all(body, seed, allowed=None, **kw):
 
 
 def guarded(fn):
-    """body wrapper: ('ok', value) or ('raised', class name, message, is-library-error)"""
+    """body wrapper: ('ok', value) or ('raised', class name, message)"""
     def body(ch):
         try:
             return ('ok', fn(ch))
         except Exception as e:      # noqa: judged by the caller
             return ('raised', type(e).__name__, str(e)[:300])
     return body
-
-
-def short(x):
-    if isinstance(x, np.ndarray):
-        return np.asarray(x).tolist()
-    return x
 
 
 def sched(ch):
@@ -404,7 +400,7 @@ class DiscreteSetFam(SeededFamily):
             if isinstance(m, np.ndarray) and not (m.shape == s0.shape and np.all(np.asarray(m) == s0)):
                 return Result('member-modified', True,
                               viol(sig + ':listed-array-modified', 'a listed array changed while sampling', repr(s0), repr(m)), n)
-        distinct = len(mlist) if cls != 'DiscreteSet' or label != 'duplicates' else 2
+        distinct = sum(1 for k, m in enumerate(mlist) if not any(self.same(m, o) for o in mlist[:k]))
         return Result('%s %d/%d members drawn' % (cls, len(hit), len(mlist)), distinct > 1, None, n)
 
 
